@@ -13,6 +13,7 @@ var Tokens = []string{
 	"$", "@", ".", "..", "*", "[", "]", "(", ")", "?(", ",", ":", "'", `"`, "a", "1", "-1", "1e", "9223372036854775808",
 	"==", "!=", "<", "<=", ">", ">=", "=~", "/a/", "/(/", "&&", "||", "!", " ", "true", "null", "'a'", `"a"`,
 	".f()", ".zz()", `\`, "\u00e9", "\U0001F600", "\xff", "\ufffd", "\t",
+	`'\ud834'`, // a quoted name that ends in a lone surrogate escape
 }
 
 // Contexts wrap a token sequence so that the bounded soup reaches every sub-grammar.
